@@ -94,6 +94,7 @@ fn layout(c: &Case) -> LayoutSpec {
         ldb_small: false,
         ldb_reopens: 0,
         ldb_compact: false,
+        ldb_history: false,
     }
 }
 
